@@ -13,7 +13,7 @@ def collect(rng, quick):
     for t in traces:
         t['src'] = f"shipped:{t['name']}"
         t['spec'] = {'shipped': t['name']}
-    reqs, _ = lem.applications(rng, 2 if quick else 6, max_events=600 if quick else None, interps=False, traces=(False, True))
+    reqs, _ = lem.applications(rng, 2 if quick else 5, max_events=600 if quick else 4000, interps=False, traces=(False, True))
     res = lem.run_applications(reqs)
     for t in lem.module_traces(reqs, res):
         t['src'] = f"lemma:{t['name']}"
